@@ -233,3 +233,13 @@ META["C12"]["rule"] += (" Further fault kind: a body cut short of its announced 
                         "several fragments, Close on a time grid. ll-close profile: Close on a time grid against the Low-Latency stub origin publishing up to 50x "
                         "faster than real time. A run in which every goroutine ends up blocked with no timer pending is the verdict 'deadlock'.")
 META["C13"]["rule"] += (" Further variants: init sections declaring a time scale of 0, 1 or 2^32-1; samples of size zero; playlists that lose every line of one tag kind.")
+
+META["C18"]["rule"] += (" held profile: the bounds are evaluated while requests sit inside their handlers (guarded sites) and the window moves. go-on profile: the "
+                        "application keeps writing after Write errors (oversized samples; an H264 stream that never carries a PPS, so that every rotation fails).")
+META["C08"]["rule"] += (" go-on profile: as in C18, the run continues after Write errors; any panic of a later Write or request is a violation.")
+META["C16"]["rule"] += (" index-burst profile: 2-4 readers request the multivariant playlist concurrently with the writer, each with a query of its own; every URI of an "
+                        "answer carries exactly the query of its request. AV1 sequence headers are generated (levels, tiers, depths, colour descriptions).")
+META["C20"]["rule"] += (" queue-cancel-burst profile: per round one goroutine enters pull or waitUntilSizeIsBelow while another cancels the context after a seeded number "
+                        "of yields; at rest the waiter must have returned. The end-to-end tier also plays playlists that grow with every poll and playlists "
+                        "carrying a preload hint without CAN-BLOCK-RELOAD.")
+META["C10"]["rule"] += (" race-stub profile: the same scenario built with the race detector.")
